@@ -99,15 +99,26 @@ def run(res, replay=None):
             c1, c2 = base["vor"]["cells"][gi], o2["vor"]["cells"][gi]
             res.nontriv(("meta", k_in, gi))
             same = all(c1[f] == c2[f] for f in ("volume", "centroid", "safety_radius"))
-            # the planes that carry vertices must be the same neighbours
-            def keyset(o, gi_):
-                ic = o["icells"][gi_]
-                used = {d for v in ic["verts"] for d in v["dual"]}
-                return sorted((ic["planes"][p]["right"], tuple(ic["planes"][p]["shift"] or ())) for p in used if ic["planes"][p]["right"] is not None)
-            if keyset(base, gi) != keyset(o2, gi):
-                res.violation("C16:far-generator-changes-neighbours", f"cell {gi}: adding {nadd} generators beyond its safety radius changed its neighbour set", ctx)
+            # the neighbours across faces of non-negligible area must be the same (in exactly degenerate configurations which
+            # zero-area faces exist depends on the order in which equidistant neighbours are visited; that order legitimately
+            # changes with the search tree, and a zero-area face does not change the cell)
+            tol = T.tolerances(meta_inputs[j])
+            thr = tol["area_min"] + tol["area_tol"]
+
+            def faces_of(o, gi_):
+                out = {}
+                for fc in o["face_integrals"]:
+                    if fc["left"] == gi_ and fc["right"] is not None:
+                        k_ = (fc["right"], tuple(fc["shift"] or ()))
+                        out[k_] = max(out.get(k_, 0.0), abs(C.b2f(fc["area"])))
+                return out
+            f1, f2 = faces_of(base, gi), faces_of(o2, gi)
+            lost = sorted(k_ for k_, a in f1.items() if a > 2 * thr and f2.get(k_, 0.0) <= thr)
+            gained = sorted(k_ for k_, a in f2.items() if a > 2 * thr and f1.get(k_, 0.0) <= thr)
+            if lost or gained:
+                res.violation("C16:far-generator-changes-neighbours", f"cell {gi}: adding {nadd} generators beyond its safety radius changed its neighbour set "
+                              f"(faces of non-negligible area lost: {lost[:3]}, gained: {gained[:3]})", ctx)
             elif not same:
-                tol = T.tolerances(meta_inputs[j])
                 if abs(C.b2f(c1["volume"]) - C.b2f(c2["volume"])) > tol["vol_tol"]:
                     res.violation("C16:far-generator-changes-cell", f"cell {gi}: adding {nadd} generators beyond its safety radius changed its volume "
                                   f"{C.b2f(c1['volume'])} -> {C.b2f(c2['volume'])}", ctx)
